@@ -362,6 +362,14 @@ appear as `Eff.other …` and break the equality. -/
 first two). -/
 theorem tie_cancelEffects : cancelEffects = [.retErrSet, .drainSource, .finish] := by decide
 
+/-- round 5b: `cancel` IS the closure above handed to `once(…)`, and `once` runs its function under a fresh
+`sync.Once` for the first call only — cancel is idempotent after the first call (model: `St.once`, the guard
+`s.once = 0` of the cancel steps, `Props5.later_cancel_is_a_noop`, `Props.first_cancel_wins`; the cell therefore sees
+ONE Store per call: `Props5.once_records_the_first`, `once_never_panics`; without it: `without_once_panics_or_overwrites`,
+seeded C10-8). -/
+theorem tie_cancelDef : cancelDef = .onceOf [.retErrSet, .drainSource, .finish] := by decide
+theorem tie_onceIsSyncOnce : onceIsSyncOnce = true := by decide
+
 /-- `finish`: `done` is closed before `output` (model: `fin := true` is one step; a writer that sees `output` closed
 has `done` closed). -/
 theorem tie_finishEffects : finishEffects = [.closeDone, .closeOutput] := by decide
